@@ -7,8 +7,17 @@
 //	conc    P producers x C consumers on one queue, invocation/response events
 //	strand  consumers parked in Get BEFORE the producer runs; a Get that does
 //	        not come back is a watchdog "Timeout" event the spec cannot explain
+//	held    callback-held schedules: a Failed/Overflowed callback (which the
+//	        queue runs inside its critical section) blocks until the other
+//	        goroutines of the schedule have been invoked and have returned, or a
+//	        bounded wait is over: every (operation holding the lock in a
+//	        callback) x (every other operation) overlaps deterministically
 //
-// The harness only records.  Elements are [producer, seq] pairs.  The order of
+// The harness only records.  Elements are [producer, seq] pairs; the VALUE put
+// into the queue is an elem struct, a pointer to one, or a "nothing-like" value
+// (nil interface, typed nil pointer, empty struct, zero int, "", nil slice,
+// false) logged as [producer, seq, tag]; what comes out is logged as the value
+// seen ([producer, seq], [tag], [] for nil).  The order of
 // the Inv/Ret events is the order of appends to one mutex-protected log (an
 // atomic stamp taken before the call and after the return), never wall-clock
 // order across goroutines.
@@ -38,23 +47,140 @@ const watchdog = 10 * time.Second
 
 type elem struct{ P, S int }
 
-func proj(v interface{}) []int {
-	if v == nil {
-		return []int{}
+// kinds of value an element is put as (call.V).  vPlain and vPtr carry the
+// element's identity; the others are "nothing-like" values the API accepts as
+// interface{} like any other: tag = kind - vNil (0 = the nil interface value).
+const (
+	vPlain = iota
+	vPtr
+	vNil
+	vNilPtr
+	vEmptyStruct
+	vZeroInt
+	vEmptyStr
+	vNilSlice
+	vFalse
+	nKinds
+)
+
+func value(e elem, kind int) interface{} {
+	switch kind {
+	case vPtr:
+		return &elem{e.P, e.S}
+	case vNil:
+		return nil
+	case vNilPtr:
+		return (*elem)(nil)
+	case vEmptyStruct:
+		return struct{}{}
+	case vZeroInt:
+		return 0
+	case vEmptyStr:
+		return ""
+	case vNilSlice:
+		return []int(nil)
+	case vFalse:
+		return false
 	}
-	if e, ok := v.(elem); ok {
-		return []int{e.P, e.S}
+	return e
+}
+
+// identity as the specification knows the element: [p, s] or [p, s, tag]
+func ident(e elem, kind int) []int {
+	if kind >= vNil {
+		return []int{e.P, e.S, kind - vNil}
+	}
+	return []int{e.P, e.S}
+}
+
+// the value as seen by whoever receives it from the queue
+func proj(v interface{}) []int {
+	switch x := v.(type) {
+	case nil:
+		return []int{}
+	case elem:
+		return []int{x.P, x.S}
+	case *elem:
+		if x == nil {
+			return []int{vNilPtr - vNil}
+		}
+		return []int{x.P, x.S}
+	case struct{}:
+		return []int{vEmptyStruct - vNil}
+	case int:
+		if x == 0 {
+			return []int{vZeroInt - vNil}
+		}
+	case string:
+		if x == "" {
+			return []int{vEmptyStr - vNil}
+		}
+	case []int:
+		if x == nil {
+			return []int{vNilSlice - vNil}
+		}
+	case bool:
+		if !x {
+			return []int{vFalse - vNil}
+		}
 	}
 	return []int{-1, -1} // something that was never put
+}
+
+func identOf(v interface{}) (elem, bool) {
+	switch x := v.(type) {
+	case elem:
+		return x, true
+	case *elem:
+		if x != nil {
+			return *x, true
+		}
+	}
+	return elem{}, false
 }
 
 // ---------------------------------------------------------------- callbacks
 
 type cbLog struct {
 	mu       sync.Mutex
-	failed   []interface{} // [lane, [p, s]] in callback order
+	failed   []interface{} // [lane, value] in callback order
 	overflow []interface{}
 	fset     map[elem]bool
+	hold     *holdCtl      // armed: one callback invocation blocks (gen "held")
+	slow     time.Duration // every callback lingers this long under the queue's lock (gen "conc")
+}
+
+// holdCtl makes the at-th invocation (counted from arming) of the failure
+// (over=false) or overflow (over=true) callback of lane k block until release
+// is closed.  The callback runs inside the queue's critical section, so the
+// queue's lock is held for that long.
+type holdCtl struct {
+	over     bool
+	k, at    int
+	seen     int
+	entered  chan struct{}
+	release  chan struct{}
+	maxBlock time.Duration
+}
+
+func (c *cbLog) gate(over bool, k int) {
+	c.mu.Lock()
+	h, slow := c.hold, c.slow
+	hit := false
+	if h != nil && h.over == over && h.k == k {
+		h.seen++
+		hit = h.seen == h.at
+	}
+	c.mu.Unlock()
+	if hit {
+		close(h.entered)
+		select {
+		case <-h.release:
+		case <-time.After(h.maxBlock): // never hold the queue for ever, whatever the orchestrator does
+		}
+	} else if slow > 0 {
+		time.Sleep(slow)
+	}
 }
 
 // a queue that keeps calling a callback (an eviction loop that never makes
@@ -74,10 +200,11 @@ func (c *cbLog) fail(k int) func(interface{}) {
 		c.mu.Lock()
 		c.runaway()
 		c.failed = append(c.failed, []interface{}{k, proj(v)})
-		if e, ok := v.(elem); ok {
+		if e, ok := identOf(v); ok {
 			c.fset[e] = true
 		}
 		c.mu.Unlock()
+		c.gate(false, k)
 	}
 }
 func (c *cbLog) over(k int) func(interface{}) {
@@ -86,6 +213,7 @@ func (c *cbLog) over(k int) func(interface{}) {
 		c.runaway()
 		c.overflow = append(c.overflow, []interface{}{k, proj(v)})
 		c.mu.Unlock()
+		c.gate(true, k)
 	}
 }
 func (c *cbLog) lens() (int, int) {
@@ -132,6 +260,7 @@ type realQ interface {
 	Clear()
 	SetCap(c1, c2 int)
 	Sizes() []int
+	SizeOf(k int) int    // one locked size read: k=0 Size(), 1 Size1(), 2 Size2()
 	Parked() (int, bool) // goroutines inside Cond.Wait right now (ok=false: not observable)
 }
 
@@ -149,6 +278,12 @@ func (s *single) Clear()                             { s.q.Clear() }
 func (s *single) SetCap(c1, c2 int)                  { s.q.SetCapacity(c1) }
 func (s *single) Sizes() []int                       { return []int{s.q.Size(), 0} }
 func (s *single) Parked() (int, bool)                { return condWaiters(s.cond) }
+func (s *single) SizeOf(k int) int {
+	if k == 2 {
+		return 0
+	}
+	return s.q.Size()
+}
 
 type double struct {
 	q    *queue.RequestDoubleQueue
@@ -174,6 +309,15 @@ func (d *double) Clear()                       { d.q.Clear() }
 func (d *double) SetCap(c1, c2 int)            { d.q.SetCapacity(c1, c2) }
 func (d *double) Sizes() []int                 { return []int{d.q.Size1(), d.q.Size2()} }
 func (d *double) Parked() (int, bool)          { return condWaiters(d.cond) }
+func (d *double) SizeOf(k int) int {
+	switch k {
+	case 1:
+		return d.q.Size1()
+	case 2:
+		return d.q.Size2()
+	}
+	return d.q.Size()
+}
 
 // field of a struct by name, writable although unexported (the double queue has
 // callback fields but no way to install them; the condition variable of both
@@ -264,9 +408,11 @@ type call struct {
 	O    string
 	K    int
 	E    elem
+	V    int // kind of value E is put as (vPlain ...)
 	T    int
 	C    [2]int
 	Wait int // microseconds to idle before the call (concurrent plans); -1 = Gosched
+	Sig  chan struct{} // closed once the invocation is logged (held schedules)
 }
 
 type hist struct {
@@ -314,7 +460,9 @@ func (c call) args(p int, ev string) core.Ev {
 	e := core.Ev{"ev": ev, "p": p, "o": c.O}
 	switch c.O {
 	case "Put", "PutForce":
-		e["k"], e["e"] = c.K, []int{c.E.P, c.E.S}
+		e["k"], e["e"] = c.K, ident(c.E, c.V)
+	case "Size":
+		e["k"] = c.K
 	case "GetTimeout":
 		e["T"] = c.T
 	case "SetCap":
@@ -327,14 +475,17 @@ type result struct {
 	ok  bool
 	out []int
 	el  int64
+	n   int
 }
 
 func (h *hist) exec(c call) (r result) {
 	switch c.O {
 	case "Put":
-		r.ok = h.q.Put(c.K, c.E)
+		r.ok = h.q.Put(c.K, value(c.E, c.V))
 	case "PutForce":
-		r.ok = h.q.PutForce(c.K, c.E)
+		r.ok = h.q.PutForce(c.K, value(c.E, c.V))
+	case "Size":
+		r.n = h.q.SizeOf(c.K)
 	case "Get":
 		r.out = proj(h.q.Get())
 	case "GetNoWait":
@@ -363,6 +514,8 @@ func (h *hist) fill(e core.Ev, c call, r result) {
 		if r.ok {
 			h.accepted = true
 		}
+	case "Size":
+		e["n"] = r.n
 	case "Get", "GetNoWait", "GetTimeout":
 		e["out"] = r.out
 		if len(r.out) > 0 {
@@ -377,8 +530,16 @@ func (h *hist) fill(e core.Ev, c call, r result) {
 // seqCall: a call made while nothing else runs -> one "Call" event with the
 // callback arguments of exactly this call and the sizes after it.  A blocking
 // Get runs under the watchdog.
+//
+// A timed get is a polling loop, not one critical section (a nil-valued element
+// it draws looks like "nothing yet" to it): it is logged as Inv + Ret, the Ret
+// carrying the sizes.
 func (h *hist) seqCall(c call) bool {
 	e := c.args(0, "Call")
+	if c.O == "GetTimeout" {
+		h.log(c.args(0, "Inv"))
+		e = core.Ev{"ev": "Ret", "p": 0, "o": c.O, "T": c.T}
+	}
 	f0, o0 := h.cb.lens()
 	var r result
 	done := make(chan string, 1)
@@ -412,6 +573,9 @@ func (h *hist) conCall(p int, c call, consumer bool) bool {
 		runtime.Gosched()
 	}
 	h.log(c.args(p, "Inv"))
+	if c.Sig != nil {
+		close(c.Sig)
+	}
 	var r result
 	msg := core.Guard(func() { r = h.exec(c) })
 	if msg != "" {
@@ -428,8 +592,10 @@ func (h *hist) conCall(p int, c call, consumer bool) bool {
 	h.mu.Lock()
 	h.fill(e, c, r)
 	h.mu.Unlock()
-	if c.O == "Put" {
-		// the failure callback receives the very element of this call
+	if c.O == "Put" && c.V < vNil {
+		// the failure callback receives the very element of this call (a
+		// nothing-like value has no identity to attribute: the complete
+		// callback logs are compared at the end of the history)
 		if h.cb.wasFailed(c.E) {
 			e["cb"] = [][]int{{c.E.P, c.E.S}}
 		} else {
@@ -456,11 +622,19 @@ func (h *hist) finish() {
 		h.log(core.Ev{"ev": "Logs", "failed": f, "overflow": o})
 	}
 	h.size()
+	h.drain()
+}
+
+// drain empties the queue with GetNoWait calls until it reports size 0 (a nil
+// answer alone does not mean empty: a nil-valued element answers nil too), plus
+// one call on the empty queue
+func (h *hist) drain() {
 	for i := 0; i < 10000; i++ {
+		sz := h.q.Sizes()
 		if !h.seqCall(call{O: "GetNoWait"}) {
 			return
 		}
-		if len(h.evs[len(h.evs)-1]["out"].([]int)) == 0 {
+		if sz[0]+sz[1] <= 0 {
 			return
 		}
 	}
@@ -505,7 +679,22 @@ func (h *hist) waitParked(n int) {
 // ---------------------------------------------------------------- generators
 
 type seqGen struct {
-	next map[int]int
+	next    map[int]int
+	nothing int // percentage of elements put as a nothing-like value (half of them the nil interface)
+}
+
+// kind of value the next element is put as
+func (g *seqGen) kind(r *rand.Rand) int {
+	if g.nothing > 0 && r.Intn(100) < g.nothing {
+		if r.Intn(2) == 0 {
+			return vNil
+		}
+		return vNilPtr + r.Intn(nKinds-vNilPtr)
+	}
+	if r.Intn(4) == 0 {
+		return vPtr
+	}
+	return vPlain
 }
 
 func (g *seqGen) elem(p int) elem {
@@ -524,7 +713,10 @@ func lane(r *rand.Rand, double bool) int {
 	return 1
 }
 
-var seqProfiles = []string{"mixed", "full", "capchange", "unbounded", "nocb", "drain"}
+var seqProfiles = []string{"mixed", "full", "capchange", "unbounded", "nocb", "drain", "nothing"}
+
+// share of nothing-like values in the histories of the other profiles
+var nothingRates = []int{0, 15, 0, 35}
 
 func runSeq(c *core.Ctx, t *core.Trace, cas int) error {
 	r := c.Rng("seq", cas)
@@ -539,11 +731,14 @@ func runSeq(c *core.Ctx, t *core.Trace, cas int) error {
 	default:
 		s.Cap = [2]int{pick(boundedPool), pick(boundedPool)}
 	}
-	h, err := start(t, "seq", cas, s, core.Ev{"profile": prof})
+	g := &seqGen{next: map[int]int{}, nothing: nothingRates[(cas/(2*len(seqProfiles)))%len(nothingRates)]}
+	if prof == "nothing" {
+		g.nothing = 50
+	}
+	h, err := start(t, "seq", cas, s, core.Ev{"profile": prof, "nothing_pct": g.nothing})
 	if err != nil {
 		return err
 	}
-	g := &seqGen{next: map[int]int{}}
 	nops := 25 + r.Intn(c.Pick(60, 120))
 	emptyTimed := 0
 	sig := []string{}
@@ -555,6 +750,7 @@ func runSeq(c *core.Ctx, t *core.Trace, cas int) error {
 		"unbounded": {35, 25, 12, 14, 8, 2, 2},
 		"nocb":      {32, 28, 12, 12, 8, 3, 5},
 		"drain":     {18, 14, 25, 22, 14, 3, 4},
+		"nothing":   {26, 16, 22, 10, 18, 3, 5},
 	}[prof]
 	tot := 0
 	for _, x := range w {
@@ -577,6 +773,7 @@ func runSeq(c *core.Ctx, t *core.Trace, cas int) error {
 		case "Put", "PutForce":
 			cl.K = lane(r, s.Double)
 			cl.E = g.elem(1 + r.Intn(3))
+			cl.V = g.kind(r)
 		case "Get":
 			if sz[0]+sz[1] <= 0 { // would block for ever in a single goroutine
 				cl.O = "GetNoWait"
@@ -672,7 +869,12 @@ func runConc(c *core.Ctx, t *core.Trace, cas int) (int, error) {
 		return 0
 	}
 	plans := make([][]call, 1+nP+nC)
-	g := &seqGen{next: map[int]int{}}
+	g := &seqGen{next: map[int]int{}, nothing: []int{0, 0, 25}[r.Intn(3)]}
+	// callbacks that linger inside the queue's critical section widen every overlap with the lock holder
+	slow := 0
+	if r.Intn(3) == 0 {
+		slow = 100 + r.Intn(1400)
+	}
 	consOps := 0
 	for p := 1; p <= nP; p++ {
 		n := 1 + r.Intn(4)
@@ -681,7 +883,7 @@ func runConc(c *core.Ctx, t *core.Trace, cas int) (int, error) {
 			if r.Intn(2) == 0 {
 				o = "PutForce"
 			}
-			plans[p] = append(plans[p], call{O: o, K: lane(r, s.Double), E: g.elem(p), Wait: delay()})
+			plans[p] = append(plans[p], call{O: o, K: lane(r, s.Double), E: g.elem(p), V: g.kind(r), Wait: delay()})
 			if r.Intn(25) == 0 {
 				plans[p] = append(plans[p], call{O: "Clear", Wait: delay()})
 			}
@@ -691,11 +893,16 @@ func runConc(c *core.Ctx, t *core.Trace, cas int) (int, error) {
 		n := 1 + r.Intn(4)
 		for i := 0; i < n; i++ {
 			cl := call{Wait: delay()}
-			switch x := r.Intn(10); {
+			switch x := r.Intn(11); {
 			case x < 5:
 				cl.O = "Get"
 			case x < 7:
 				cl.O = "GetNoWait"
+			case x == 10:
+				cl.O = "Size" // a locked size read overlapping the others
+				if s.Double {
+					cl.K = r.Intn(3)
+				}
 			default:
 				cl.O, cl.T = "GetTimeout", []int{0, 1, 2, 3, 5, 8, 15}[r.Intn(7)]
 			}
@@ -703,10 +910,11 @@ func runConc(c *core.Ctx, t *core.Trace, cas int) (int, error) {
 			consOps++
 		}
 	}
-	h, err := start(t, "conc", cas, s, core.Ev{"producers": nP, "consumers": nC, "consumers_first": consFirst, "nondet": true})
+	h, err := start(t, "conc", cas, s, core.Ev{"producers": nP, "consumers": nC, "consumers_first": consFirst, "nondet": true, "nothing_pct": g.nothing, "cb_linger_us": slow})
 	if err != nil {
 		return 0, err
 	}
+	h.cb.slow = time.Duration(slow) * time.Microsecond
 	inflight := make([]int32, 1+nP+nC)
 	done := make(chan int, nC)
 	var pw sync.WaitGroup
@@ -817,11 +1025,7 @@ func runStrand(c *core.Ctx, t *core.Trace, cas int, sc [7]int) (int, error) {
 		if r.Intn(2) == 0 {
 			h.seqCall(call{O: "Clear"})
 		}
-		for {
-			if !h.seqCall(call{O: "GetNoWait"}) || len(h.evs[len(h.evs)-1]["out"].([]int)) == 0 {
-				break
-			}
-		}
+		h.drain()
 	}
 	put := "Put"
 	if force {
@@ -961,6 +1165,224 @@ func runStrand(c *core.Ctx, t *core.Trace, cas int, sc [7]int) (int, error) {
 	return h.timeouts, nil
 }
 
+
+// ---------------------------------------------------------------- callback-held schedules
+//
+// The queue runs its Failed/Overflowed callbacks inside its critical section:
+// a callback that blocks is a lock holder the harness controls.  One goroutine
+// (the holder) makes a call whose callback blocks; while it is blocked the
+// other goroutines of the schedule are started; the callback is released when
+// all of them have returned or a bounded wait is over (on a queue whose
+// operations all take the lock they simply block until then).  Invocations and
+// responses are logged as always and TLC looks for linearization points.
+//
+//	holder 0  a plain put on a full lane: refused, the failure callback blocks
+//	holder 1  a forced put on a full lane: the overflow callback blocks
+//	holder 2  a forced put on a lane whose capacity was lowered under its content:
+//	          several evictions, the callback blocks at one of them (mid-loop)
+var heldOthers = []string{"GetNoWait", "GetTimeout0", "GetTimeoutShort", "GetTimeoutLong", "Get", "Size0", "Size1", "Size2", "Put", "PutOther", "PutForce", "Clear"}
+
+type heldCase struct{ dbl, holder, lane, other int }
+
+func heldCases() []heldCase {
+	var out []heldCase
+	for dbl := 0; dbl < 2; dbl++ {
+		for holder := 0; holder < 3; holder++ {
+			for ln := 1; ln <= 1+dbl; ln++ {
+				for o, name := range heldOthers {
+					if dbl == 0 && (name == "Size1" || name == "Size2" || name == "PutOther") {
+						continue
+					}
+					out = append(out, heldCase{dbl, holder, ln, o})
+				}
+			}
+		}
+	}
+	return out
+}
+
+func (h *hist) heldOther(name string, k int, g *seqGen, r *rand.Rand, p int, holdMs int) call {
+	ok := 3 - k // the other lane
+	if !h.set.Double {
+		ok = 1
+	}
+	switch name {
+	case "GetTimeout0":
+		return call{O: "GetTimeout", T: 0}
+	case "GetTimeoutShort":
+		return call{O: "GetTimeout", T: 1 + r.Intn(4)}
+	case "GetTimeoutLong":
+		return call{O: "GetTimeout", T: holdMs + 15}
+	case "Size0":
+		return call{O: "Size", K: 0}
+	case "Size1":
+		return call{O: "Size", K: 1}
+	case "Size2":
+		return call{O: "Size", K: 2}
+	case "Put":
+		return call{O: "Put", K: k, E: g.elem(p), V: g.kind(r)}
+	case "PutOther":
+		return call{O: "Put", K: ok, E: g.elem(p), V: g.kind(r)}
+	case "PutForce":
+		return call{O: "PutForce", K: k, E: g.elem(p), V: g.kind(r)}
+	}
+	return call{O: name} // GetNoWait, Get, Clear
+}
+
+func runHeld(c *core.Ctx, t *core.Trace, cas int, hc heldCase) (int, error) {
+	r := c.Rng("held", cas)
+	dbl, k := hc.dbl == 1, hc.lane
+	capK := 1 + r.Intn(3)
+	extra := 0
+	if hc.holder == 2 {
+		extra = 1 + r.Intn(2)
+	}
+	s := setup{Double: dbl, CB: true}
+	s.Cap[k-1] = capK + extra
+	if dbl {
+		s.Cap[2-k] = []int{0, 1, 2, 3}[r.Intn(4)]
+	}
+	g := &seqGen{next: map[int]int{}, nothing: []int{0, 30, 0, 60}[(cas/7)%4]}
+	holdMs := c.Pick(12, 20)
+	names := []string{heldOthers[hc.other]}
+	if r.Intn(2) == 0 {
+		for {
+			n := heldOthers[r.Intn(len(heldOthers))]
+			if dbl || (n != "Size1" && n != "Size2" && n != "PutOther") {
+				names = append(names, n)
+				break
+			}
+		}
+	}
+	h, err := start(t, "held", cas, s, core.Ev{"holder": hc.holder, "lane": k, "others": names, "nothing_pct": g.nothing, "nondet": true})
+	if err != nil {
+		return 0, err
+	}
+	// fill lane k to its capacity; something in the other lane too
+	for i := 0; i < capK+extra; i++ {
+		h.seqCall(call{O: "Put", K: k, E: g.elem(4), V: g.kind(r)})
+	}
+	if dbl {
+		for i := r.Intn(3); i > 0; i-- {
+			h.seqCall(call{O: "Put", K: 3 - k, E: g.elem(4), V: g.kind(r)})
+		}
+	}
+	at := 1
+	if extra > 0 {
+		cp := [2]int{s.Cap[0], s.Cap[1]}
+		cp[k-1] = capK
+		h.seqCall(call{O: "SetCap", C: cp})
+		at = 1 + r.Intn(extra+1) // evictions to come: extra+1
+	}
+	ctl := &holdCtl{over: hc.holder != 0, k: k, at: at, entered: make(chan struct{}), release: make(chan struct{}), maxBlock: 5 * time.Second}
+	h.cb.mu.Lock()
+	h.cb.hold = ctl
+	h.cb.mu.Unlock()
+
+	others := make([]call, len(names))
+	for i, n := range names {
+		others[i] = h.heldOther(n, k, g, r, 2+i, holdMs)
+		others[i].Sig = make(chan struct{})
+		if others[i].O == "GetTimeout" && others[i].T+12 > holdMs && n != "GetTimeoutLong" {
+			holdMs = others[i].T + 12
+		}
+	}
+	nG := 1 + len(others)
+	inflight := make([]int32, 1+nG)
+	done := make(chan int, nG)
+	run := func(p int, cl call) {
+		atomic.StoreInt32(&inflight[p], 1)
+		go func() {
+			h.conCall(p, cl, true)
+			atomic.StoreInt32(&inflight[p], 0)
+			done <- p
+		}()
+	}
+	hop := "Put"
+	if hc.holder != 0 {
+		hop = "PutForce"
+	}
+	run(1, call{O: hop, K: k, E: g.elem(1), V: g.kind(r)})
+	finished := 0
+	holderDone := false
+	entered := false
+	select {
+	case <-ctl.entered:
+		entered = true
+	case <-done: // the call came back without its callback having been reached
+		finished++
+		holderDone = true
+	case <-time.After(2 * time.Second):
+	}
+	for i, cl := range others {
+		run(2+i, cl)
+	}
+	// the callback stays blocked until every other goroutine has been invoked and has returned, or the wait is over
+	for _, cl := range others {
+		select {
+		case <-cl.Sig:
+		case <-time.After(2 * time.Second):
+		}
+	}
+	dl := time.After(time.Duration(holdMs) * time.Millisecond)
+	returned := 0
+wait:
+	for returned < len(others) {
+		select {
+		case p := <-done:
+			finished++
+			if p == 1 {
+				holderDone = true
+			} else {
+				returned++
+			}
+		case <-dl:
+			break wait
+		}
+	}
+	close(ctl.release)
+	// everybody must come back now; a blocking Get may find the queue drained by the others: keep it supplied
+	pause := 5 * time.Millisecond
+	last := time.Now()
+	for finished < nG {
+		select {
+		case p := <-done:
+			finished++
+			if p == 1 {
+				holderDone = true
+			}
+			last = time.Now()
+			continue
+		case <-time.After(pause):
+		}
+		if time.Since(last) > watchdog {
+			for p := 1; p <= nG; p++ {
+				if atomic.LoadInt32(&inflight[p]) != 0 {
+					h.timeouts++
+					h.log(core.Ev{"ev": "Timeout", "p": p})
+				}
+			}
+			break
+		}
+		if holderDone {
+			h.conCall(0, call{O: "PutForce", K: lane(r, dbl), E: g.elem(0)}, false)
+		}
+		if pause < 200*time.Millisecond {
+			pause *= 2
+		}
+	}
+	h.cb.mu.Lock()
+	h.cb.hold = nil
+	h.cb.mu.Unlock()
+	h.finish()
+	h.flush()
+	c.Count(fmt.Sprintf("held|%v|%v|%s|%d", hc, s, strings.Join(names, "+"), at), entered)
+	if cas < 1 {
+		c.Sample(map[string]interface{}{"gen": "held", "case": cas, "setup": s.String(), "holder": hop, "blocked_callback_invocation": at, "others": names, "hold_ms": holdMs})
+	}
+	return h.timeouts, nil
+}
+
 func min(a, b int) int {
 	if a < b {
 		return a
@@ -989,7 +1411,7 @@ func runSelf(c *core.Ctx, t *core.Trace) error {
 }
 
 func Run(c *core.Ctx) error {
-	c.Rule = "C11: sequential histories over the whole API of RequestQueue and RequestDoubleQueue (profiles mixed/full/capchange/unbounded/nocb/drain), concurrent histories of 1-3 producers x 1-3 consumers (blocking, no-wait and timed gets, consumers optionally parked before the first producer), and stranded-consumer schedules (1-3 consumers observed parked in Get before each put); a history is non-trivial if an element was accepted and an element was delivered; distinct by setup and call plan"
+	c.Rule = "C11: sequential histories over the whole API of RequestQueue and RequestDoubleQueue (profiles mixed/full/capchange/unbounded/nocb/drain), concurrent histories of 1-3 producers x 1-3 consumers (blocking, no-wait and timed gets, consumers optionally parked before the first producer), and stranded-consumer schedules (1-3 consumers observed parked in Get before each put), callback-held schedules (a Failed/Overflowed callback blocks inside the queue's critical section while every other operation is invoked: holder refused-Put / evicting PutForce / mid-loop eviction x GetNoWait, GetTimeout, Get, Size, Put, PutForce, Clear); elements are put as struct values, pointers and nothing-like values (nil interface, typed nil pointer, empty struct, zero int, empty string, nil slice, false); a history is non-trivial if an element was accepted and an element was delivered; distinct by setup and call plan"
 	if _, ok := condWaiters(sync.NewCond(new(sync.Mutex))); !ok {
 		c.SetExtra("parked_observable", false)
 	} else {
@@ -1028,6 +1450,32 @@ func Run(c *core.Ctx) error {
 					return err
 				}
 				timeouts += n
+			}
+		}
+	}
+	if c.WantGen("held") {
+		cases := heldCases()
+		rounds := c.Pick(1, 4)
+		single := c.OnlyGen == "held" && c.OnlyCase >= 0
+		for round := 0; round < rounds; round++ {
+			for i, hc := range cases {
+				cas := round*1000 + i
+				if !c.Want("held", cas) || timeouts >= 3 || tooManyStuck() {
+					continue
+				}
+				// reproduction of one rejected schedule: the overlap needs the other goroutine to reach the
+				// lock within the bounded wait; run the schedule a few times, every run is judged
+				reps := 1
+				if single {
+					reps = 10
+				}
+				for j := 0; j < reps && timeouts < 3 && !tooManyStuck(); j++ {
+					n, err := runHeld(c, t, cas, hc)
+					if err != nil {
+						return err
+					}
+					timeouts += n
+				}
 			}
 		}
 	}
